@@ -28,7 +28,7 @@ def install():
              'float64', 'double', 'int32', 'int64', 'long', 'get_default_dtype', 'set_default_dtype',
              'promote_types', 'where', 'lerp', 'maximum', 'minimum', 'clamp', 'full', 'zeros', 'ones', 'empty',
              'zeros_like', 'ones_like', 'full_like', 'empty_like', 'tensor', 'as_tensor', 'arange', 'cat', 'stack',
-             'broadcast_tensors', 'randn', 'rand', 'randn_like', 'rand_like', 'randperm', 'poisson', 'manual_seed',
+             'broadcast_tensors', 'broadcast_shapes', 'randn', 'rand', 'randn_like', 'rand_like', 'randperm', 'poisson', 'manual_seed',
              'logsumexp', 'topk', 'quantile', 'matmul']
     for n in names:
         setattr(torch, n, getattr(T, n))
